@@ -194,7 +194,7 @@ def _expand(helper, call, caller_names, drop_self, want_value, mode=None):
             elif last.value is not None and any(isinstance(x, ast.Call) for x in ast.walk(last.value)):
                 new.append(ast.copy_location(ast.Expr(value=last.value), last))
         stmts = pre + new
-    elif (structured := _structured(copy.deepcopy(new), retname, want_value)) is not None:
+    elif (structured := _structured(copy.deepcopy(new) + ([] if _terminates(new) or not want_value else [ast.Return(value=ast.Constant(value=None))]), retname, want_value)) is not None:
         stmts = pre + structured
         if want_value:
             result = ast.Name(id=retname, ctx=ast.Load())
@@ -272,8 +272,10 @@ def _non_none(e):
         return e.value is not None
     if isinstance(e, (ast.List, ast.Tuple, ast.Dict, ast.Set, ast.ListComp, ast.SetComp, ast.DictComp, ast.JoinedStr)):
         return True
-    if isinstance(e, ast.Call) and isinstance(e.func, ast.Name) and e.func.id[:1].isupper():
+    if isinstance(e, ast.Call) and isinstance(e.func, ast.Name) and (e.func.id[:1].isupper() or e.func.id in ('list', 'dict', 'set', 'tuple', 'sorted', 'str', 'frozenset')):
         return True
+    if isinstance(e, ast.BinOp) and isinstance(e.op, ast.Add):
+        return _non_none(e.left) or _non_none(e.right)      # a sum with a display is a display (or raises)
     return False
 
 
@@ -374,7 +376,16 @@ def _structured(block, retname, want_value):
         rest = block[i + 1:]
         if not (bt and ot):
             if not bt and not ot:
-                return None
+                # both branches may fall through after a nested return: the continuation is copied into both (bounded)
+                if sum(1 for st_ in rest for _x in ast.walk(st_) if isinstance(_x, ast.stmt)) > 120:
+                    return None
+                b = _structured(list(s.body) + [copy.deepcopy(st_) for st_ in rest], retname, want_value)
+                o = _structured(list(s.orelse) + [copy.deepcopy(st_) for st_ in rest], retname, want_value)
+                if b is None or o is None:
+                    return None
+                new = ast.copy_location(ast.If(test=s.test, body=b or [ast.copy_location(ast.Pass(), s)], orelse=o), s)
+                out.append(new)
+                return out
             rr = _structured(rest, retname, want_value)
             if rr is None:
                 return None
@@ -413,14 +424,17 @@ class _Subst(ast.NodeTransformer):
         return node
 
 
-def _expression_helper(helper):
-    """The returned expression when the helper is just `return <expr>` (after an optional docstring)."""
+def _expression_helper(helper, allow_scopes=False):
+    """The returned expression when the helper is just `return <expr>` (after an optional docstring). Expressions that open a scope of
+    their own (lambda, comprehension) qualify only on request: substituting into them is safe for constant arguments."""
     body = helper.body
     if body and isinstance(body[0], ast.Expr) and isinstance(body[0].value, ast.Constant) and isinstance(body[0].value.value, str):
         body = body[1:]
     if len(body) == 1 and isinstance(body[0], ast.Return) and body[0].value is not None:
         e = body[0].value
-        if not any(isinstance(x, (ast.Lambda, ast.ListComp, ast.SetComp, ast.DictComp, ast.GeneratorExp, ast.NamedExpr, ast.Yield, ast.Await)) for x in ast.walk(e)):
+        if any(isinstance(x, (ast.NamedExpr, ast.Yield, ast.YieldFrom, ast.Await)) for x in ast.walk(e)):
+            return None
+        if allow_scopes or not any(isinstance(x, (ast.Lambda, ast.ListComp, ast.SetComp, ast.DictComp, ast.GeneratorExp)) for x in ast.walk(e)):
             return e
     return None
 
@@ -436,6 +450,14 @@ def _inline_expression_helpers(fn, helpers, names_ok, is_method):
             for name, call, ok in (_helper_calls(st, names_ok, is_method) if isinstance(st, ast.stmt) and not isinstance(st, (ast.FunctionDef, ast.ClassDef)) else []):
                 helper = helpers[name]
                 e = _expression_helper(helper)
+                if e is None and all(isinstance(a, ast.Constant) for a in call.args) and all(isinstance(k.value, ast.Constant) for k in call.keywords):
+                    e = _expression_helper(helper, allow_scopes=True)
+                    if e is not None:
+                        pn_ = set(_params(helper))
+                        inner_ = {a.arg for x in ast.walk(e) if isinstance(x, ast.Lambda) for a in x.args.args} | \
+                            {t.id for x in ast.walk(e) if isinstance(x, ast.comprehension) for t in ast.walk(x.target) if isinstance(t, ast.Name)}
+                        if pn_ & inner_:
+                            e = None
                 if e is None or any(isinstance(a, ast.Starred) for a in call.args) or any(k.arg is None for k in call.keywords):
                     continue
                 drop_self = is_method and not any(isinstance(d, ast.Name) and d.id == 'staticmethod' for d in helper.decorator_list)
@@ -693,6 +715,22 @@ def _desugar_comprehensions(fn, names, is_method):
                 for h in st.handlers:
                     h.body = rewrite(h.body)
             comp = None
+            if isinstance(st, ast.Expr) and isinstance(st.value, ast.Call) and isinstance(st.value.func, ast.Attribute) and st.value.func.attr == 'extend' \
+                    and len(st.value.args) == 1 and not st.value.keywords and isinstance(st.value.args[0], (ast.GeneratorExp, ast.ListComp)) \
+                    and isinstance(st.value.func.value, ast.Name):
+                # acc.extend(h(x) for x in xs)  ->  for x in xs: acc.append(h(x))
+                c_ = st.value.args[0]
+                if len(c_.generators) == 1 and not c_.generators[0].is_async and [c for c in _helper_calls(ast.Expr(value=c_.elt), names, is_method) if c[2]]:
+                    g = c_.generators[0]
+                    app = ast.Expr(value=ast.Call(func=ast.Attribute(value=ast.Name(id=st.value.func.value.id, ctx=ast.Load()), attr='append', ctx=ast.Load()), args=[c_.elt], keywords=[]))
+                    body = [app]
+                    for cnd in reversed(g.ifs):
+                        body = [ast.If(test=cnd, body=body, orelse=[])]
+                    loop = ast.For(target=g.target, iter=g.iter, body=body, orelse=[], lineno=st.lineno)
+                    ast.copy_location(loop, st)
+                    ast.fix_missing_locations(loop)
+                    out.append(loop)
+                    continue
             if isinstance(st, ast.Return) and isinstance(st.value, ast.ListComp):
                 comp = st.value
             elif isinstance(st, ast.Assign) and len(st.targets) == 1 and isinstance(st.value, ast.ListComp):
@@ -730,7 +768,16 @@ def _qualifies(tree, scope_funcs, helpers, is_method):
     """Helpers all of whose references are plain calls in hoistable positions inside scope_funcs."""
     names = set(helpers)
     refs = {n: 0 for n in names}
+    # references from a module-level table that nothing reads any more (its loop was unrolled) do not count
+    loaded = {x.id for x in ast.walk(tree) if isinstance(x, ast.Name) and isinstance(x.ctx, ast.Load)}
+    dead = set()
+    for st in getattr(tree, 'body', []):
+        if isinstance(st, ast.Assign) and len(st.targets) == 1 and isinstance(st.targets[0], ast.Name) and st.targets[0].id not in loaded \
+                and isinstance(st.value, (ast.Tuple, ast.List, ast.Dict)):
+            dead |= {id(x) for x in ast.walk(st)}
     for n in ast.walk(tree):
+        if id(n) in dead:
+            continue
         if is_method and isinstance(n, ast.Attribute) and n.attr in refs:
             refs[n.attr] += 1
         if not is_method and isinstance(n, ast.Name) and n.id in refs and isinstance(n.ctx, ast.Load):
@@ -754,6 +801,25 @@ def _qualifies(tree, scope_funcs, helpers, is_method):
     return out
 
 
+def _single_return(helper):
+    """The returned expression of a function that consists of `return <expr>` only (after an optional docstring)."""
+    body = helper.body
+    if body and isinstance(body[0], ast.Expr) and isinstance(body[0].value, ast.Constant) and isinstance(body[0].value.value, str):
+        body = body[1:]
+    if len(body) == 1 and isinstance(body[0], ast.Return) and body[0].value is not None and \
+            not any(isinstance(x, (ast.Yield, ast.YieldFrom, ast.Await, ast.NamedExpr)) for x in ast.walk(body[0].value)):
+        return body[0].value
+    return None
+
+
+def local_functions_pass(tree):
+    """Second run of the nested-function pass, after forward substitution has reduced `t = E; return f(t)` bodies to one expression."""
+    done = []
+    for fn in [n for n in ast.walk(tree) if isinstance(n, ast.FunctionDef)]:
+        _inline_local_expression_functions(fn, done)
+    return done
+
+
 def _inline_local_expression_functions(fn, done):
     """A nested `def g(a, b): return <expr>` (or `g = lambda a, b: <expr>`) that is only ever called inside fn is substituted at
     its call sites (late binding of its free variables = evaluation at the call site) and dropped."""
@@ -764,16 +830,50 @@ def _inline_local_expression_functions(fn, done):
             if not isinstance(blk, list):
                 continue
             for st in blk:
-                if isinstance(st, ast.FunctionDef) and st is not fn and not st.decorator_list and _expression_helper(st) is not None:
+                if isinstance(st, ast.FunctionDef) and st is not fn and not st.decorator_list and _single_return(st) is not None:
                     cands[st.name] = (st, blk)
     for name, (g, blk) in list(cands.items()):
         refs = [n for n in ast.walk(fn) if isinstance(n, ast.Name) and n.id == name]
         callfuncs = {id(c.func) for c in ast.walk(fn) if isinstance(c, ast.Call) and isinstance(c.func, ast.Name) and c.func.id == name}
         binders = [n for n in ast.walk(fn) if isinstance(n, ast.FunctionDef) and n.name == name]
         inside = {id(n) for n in ast.walk(g)}
-        if not refs or len(binders) != 1 or any(id(r_) not in callfuncs for r_ in refs) or any(id(r_) in inside for r_ in refs):
+        if not refs or len(binders) != 1 or any(id(r_) in inside for r_ in refs):
+            continue
+        if any(id(r_) not in callfuncs for r_ in refs):
+            # handed around as a value (a key function, an entry of a dict of predicates): it stands for the lambda of the same body
+            a_ = g.args
+            plain = not (a_.vararg or a_.kwarg or a_.kwonlyargs or a_.posonlyargs) and all(isinstance(r_.ctx, ast.Load) for r_ in refs)
+            if plain and len(refs) <= 3:
+                # the call sites first (the expression with the arguments substituted), then the remaining references become lambdas
+                if callfuncs and _expression_helper(g, allow_scopes=True) is not None and \
+                        not any(isinstance(a, ast.Starred) for c in ast.walk(fn) if isinstance(c, ast.Call) and id(c.func) in callfuncs for a in c.args):
+                    _inline_expression_helpers(fn, {name: g}, {name}, False)
+                    refs = [n for n in ast.walk(fn) if isinstance(n, ast.Name) and n.id == name and id(n) not in {id(x) for x in ast.walk(g)}]
+                    still_called = {id(c.func) for c in ast.walk(fn) if isinstance(c, ast.Call) and isinstance(c.func, ast.Name) and c.func.id == name}
+                    if any(id(r_) in still_called for r_ in refs):
+                        continue
+                for r_ in refs:
+                    lam = ast.Lambda(args=copy.deepcopy(a_), body=copy.deepcopy(_single_return(g)))
+                    for x in lam.args.args:
+                        x.annotation = None
+                    for par in ast.walk(fn):
+                        for fld, val in ast.iter_fields(par):
+                            if val is r_:
+                                setattr(par, fld, ast.copy_location(lam, r_))
+                            elif isinstance(val, list):
+                                for i_, c_ in enumerate(val):
+                                    if c_ is r_:
+                                        val[i_] = ast.copy_location(lam, r_)
+                    ast.fix_missing_locations(lam)
+                if not any(isinstance(n, ast.Name) and n.id == name for n in ast.walk(fn)):
+                    blk.remove(g)
+                    if not blk:
+                        blk.append(ast.copy_location(ast.Pass(), g))
+                    done.append('%s.<locals>.%s' % (fn.name, name))
             continue
         if any(isinstance(a, ast.Starred) for c in ast.walk(fn) if isinstance(c, ast.Call) and id(c.func) in callfuncs for a in c.args):
+            continue
+        if _expression_helper(g, allow_scopes=True) is None:
             continue
         _inline_expression_helpers(fn, {name: g}, {name}, False)
         if not any(isinstance(n, ast.Name) and n.id == name for n in ast.walk(fn)):
